@@ -121,6 +121,39 @@ def h_pdhg_state(cfg, V):
     return [("early_stop_only_at_fixed_point", B.and_(O.eq(a.x, x1), O.eq(a.u, u1), O.eq(a.x_ext, e1)))]
 
 
+def h_gm_state(cfg, V):
+    """inductive form for the (accelerated) gradient method: from ANY state (x, z, t >= 1) one update; if done() then holds with tol = 0
+    and budget left, a further update leaves x (and z) unchanged"""
+    from sigpy import alg, prox
+    Amat = _mat(cfg["A"], V)
+    m, n = Amat.shape
+    b = V.array("b", [m], False)
+    x = V.array("x", [n], False)
+    alpha = _pos(V, "alpha")
+    proxg = prox.L1Reg([n], _pos(V, "lam")) if cfg["g"] == "l1" else None
+    a = alg.GradientMethod(lambda v: Amat.T @ (Amat @ v - b), x, alpha, proxg=proxg, accelerate=cfg["acc"], max_iter=5, tol=0)
+    if cfg["acc"]:
+        z = V.array("z", [n], False)
+        # t = (q - 1/q)/4 covers every t >= 1 and makes 1 + 4 t^2 a perfect square (as in C13)
+        q = _pos(V, "q")
+        t = (q - 1 / q) / 4
+        V.assume(t >= 1, "t >= 1")
+        if V.symbolic:
+            S.cur().register_sqrt(1 + 4 * t ** 2, (q + 1 / q) / 2)
+        a.z = z.copy()
+        a.t = t
+    a.update()
+    if not a.done():
+        return [("not_stopped", O.const(True))]
+    x1 = np.array(a.x, copy=True)
+    z1 = np.array(a.z, copy=True) if cfg["acc"] else None
+    a.update()
+    good = O.eq(a.x, x1)
+    if cfg["acc"]:
+        good = B.and_(good, O.eq(a.z, z1))
+    return [("early_stop_only_at_fixed_point", good)]
+
+
 def h_apprun(cfg, V):
     import sigpy as sp
     Amat = np.array(cfg["A"], dtype=np.float64)
@@ -164,7 +197,7 @@ def h_power(cfg, V):
     return obl
 
 
-HARNESSES = {"cg": h_cg, "gm": h_gm, "pdhg": h_pdhg, "pdhg_state": h_pdhg_state, "apprun": h_apprun, "power": h_power}
+HARNESSES = {"cg": h_cg, "gm": h_gm, "pdhg": h_pdhg, "pdhg_state": h_pdhg_state, "gm_state": h_gm_state, "apprun": h_apprun, "power": h_power}
 
 
 def configs(tier, seed):
@@ -202,6 +235,10 @@ def configs(tier, seed):
     for Aname, Am in (("a1", [[2]]), ("a21", [[1], [2]])) + ((("d2", [[1, 0], [0, 2]]),) if full else ()):
         for g in ("none", "l1"):
             add("pdhg_state", "%s:g=%s" % (Aname, g), A=Am, g=g, cost=30)
+    for Aname, Am in (("a1", [[2]]), ("a21", [[1], [2]])) + ((("d2", [[1, 0], [0, 2]]),) if full else ()):
+        for g in ("none", "l1"):
+            for acc in (False, True):
+                add("gm_state", "%s:g=%s:acc=%s" % (Aname, g, acc), A=Am, g=g, acc=acc, cost=30)
     for solver in ("ConjugateGradient", "GradientMethod"):
         for mi in ((0, 1, 2) if (solver == "ConjugateGradient" or full) else (0, 1)):
             add("apprun", "%s:max_iter=%d" % (solver, mi), A=[[2, 1], [0, 1]], solver=solver, max_iter=mi)
